@@ -199,6 +199,22 @@ def explore(case):
         a2 = np.array(f(xt, oms[2] + 50.0, pv), dtype=float)
         if not np.array_equal(a1, a2):
             res.fail(site="quadrotor.p_defaults", clause="positional_parameter_table_equals_named", cls="-", detail=dict(params=pname), sub="model", case=case)
+    # every derive_model() call hands out its own default tables: customising one vehicle (sim() and the scripts write into the table in
+    # place) must not change the defaults of a model derived afterwards
+    if pname == "default":
+        res.count("evaluations")
+        with contextlib.redirect_stdout(io.StringIO()):
+            from cyecca.models import quadrotor as _quad
+            ma = _quad.derive_model()
+            shipped_p, shipped_x = dict(ma["p_defaults"]), dict(ma["x0_defaults"])
+            for k_, v_ in (("m", 3.0), ("l_motor_0", 0.35), ("dir_motor_1", -ma["p_defaults"]["dir_motor_1"])):
+                ma["p_defaults"][k_] = v_
+            first_x = next(iter(ma["x0_defaults"]))
+            ma["x0_defaults"][first_x] = 7.0
+            mb = _quad.derive_model()
+        if dict(mb["p_defaults"]) != shipped_p or dict(mb["x0_defaults"]) != shipped_x:
+            changed = [k_ for k_ in shipped_p if mb["p_defaults"].get(k_) != shipped_p[k_]] + [k_ for k_ in shipped_x if mb["x0_defaults"].get(k_) != shipped_x[k_]]
+            res.fail(site="quadrotor.p_defaults", clause="default_tables_are_per_model", cls="-", detail=dict(changed_in_a_later_model=changed[:6]), sub="model", case=case)
     # the integrator interface (`model["dae"]`, used with idas / cvodes by sim() and the scripts) carries the same right-hand side as `f`,
     # also off the unit sphere (a stabilisation term would vanish for unit quaternions)
     dae = m["dae"]
